@@ -889,6 +889,7 @@ async def dependents_once(k, how, tmpdir):
         for t in lt:
             t.cancel()
         await memwire.settle(2)
+    nobjs = len(objs)
     del futs, waits, late, objs
     gc.collect()
     await memwire.settle(2)
@@ -896,6 +897,7 @@ async def dependents_once(k, how, tmpdir):
         probs.append(('loop-exception', f'connection ended ({how}) after {n[0]} packets: reached the loop exception handler: '
                                         + '; '.join(errors[:2])))
     loop.set_exception_handler(old_handler)
+    dependents_once.nobjs = max(getattr(dependents_once, 'nobjs', 0), nobjs)
     return probs, reached_end
 
 
@@ -1080,7 +1082,7 @@ async def main_async(ctx):
         if d.get(need, 0) < 3:
             ctx.broke('vacuity:' + need, f'only {d.get(need, 0)} occurrences generated')
     if ctx.cov['oracle'].get('connect.cut_positions', 0) < 8 or ctx.cov['oracle'].get('sftp.cut_positions', 0) < 8 \
-            or ctx.cov['oracle'].get('dependents.abort', 0) < 5:
+            or ctx.cov['oracle'].get('dependents.abort', 0) < 5 or getattr(dependents_once, 'nobjs', 0) < 8:
         ctx.broke('vacuity:sweeps', 'connect / SFTP cut sweeps explored too few positions')
     if budget.hangs >= MAX_HANGS:
         ctx.log(f'circuit breaker: stopped exploring after {budget.hangs} hang findings')
